@@ -1,7 +1,7 @@
 (* C01 -- Intrinsic value functions resolve to their CloudFormation-defined value.
-   Statements only; proofs are [exact] of lemmas in Resolver/Spec.v and Resolver/SubFacts.v. *)
+   Statements only; proofs are [exact] of lemmas in Resolver/Spec.v, Resolver/SubFacts.v and Resolver/SubSpec.v. *)
 From Coq Require Import List Bool NArith ZArith.
-From PV Require Import Base.Str Base.Value Resolver.Consts Resolver.Text Resolver.Resolve Resolver.Spec Resolver.SubFacts.
+From PV Require Import Base.Str Base.Value Resolver.Consts Resolver.Text Resolver.Resolve Resolver.Spec Resolver.SubFacts Resolver.SubSpec.
 Import ListNotations.
 Local Open Scope N_scope.
 
@@ -19,6 +19,91 @@ Print Assumptions C01_deterministic.
 Theorem C01_sub_tokens_partition : forall text, concat (map tok_src (sub_tokens text)) = text.
 Proof. exact sub_tokens_partition. Qed.
 Print Assumptions C01_sub_tokens_partition.
+
+(* ... and the cut is THE one Python's  re.sub  makes with the pattern  \$\{(!?)([\w:]+)\}  (a partition alone could
+   also be the tokeniser that finds nothing).  [Scan] (Resolver/SubSpec.v) is the declarative left-to-right,
+   non-overlapping scan:
+     Match ("${"  n "}" rest) (TVar n)  rest      Match ("${!" n "}" rest) (TBang n) rest      (n : one or more of [\w:])
+     Scan [] []
+     Match s t rest -> Scan rest ts -> Scan s (t :: ts)                            (a match: go on AFTER it)
+     ~ starts_placeholder (c :: r) -> Scan r ts -> Scan (c :: r) (TText c :: ts)   (no match here: literal character)
+   and [sub_tokens text] is the one and only scan of [text].   $ = 36  { = 123  } = 125  ! = 33 *)
+Theorem C01_sub_tokeniser_is_the_regex : forall text ts, Scan text ts <-> ts = sub_tokens text.
+Proof. exact Scan_iff. Qed.
+Print Assumptions C01_sub_tokeniser_is_the_regex.
+
+(* the executable placeholder test is the regex match, and "the regex matches here" spelled out *)
+Theorem C01_sub_match_is_the_regex : forall s t rest, placeholder_at s = Some (t, rest) <-> Match s t rest.
+Proof. exact placeholder_at_iff. Qed.
+Print Assumptions C01_sub_match_is_the_regex.
+Theorem C01_sub_starts_placeholder : forall s,
+  starts_placeholder s <->
+  exists n rest, valid_name n /\ (s = 36 :: 123 :: n ++ 125 :: rest \/ s = 36 :: 123 :: 33 :: n ++ 125 :: rest).
+Proof. exact starts_placeholder_iff. Qed.
+Print Assumptions C01_sub_starts_placeholder.
+
+(* every well-formed placeholder is found, wherever it stands:  pre "${" n "}" post   and   pre "${!" n "}" post.
+   No condition on [pre] or [post]: "$" can only be the first character of a match, so nothing that began
+   in [pre] can swallow it. *)
+Theorem C01_sub_finds_placeholder : forall pre n post, valid_name n ->
+  sub_tokens (pre ++ 36 :: 123 :: n ++ 125 :: post) = sub_tokens pre ++ TVar n :: sub_tokens post.
+Proof. exact sub_finds_placeholder. Qed.
+Print Assumptions C01_sub_finds_placeholder.
+Theorem C01_sub_finds_bang : forall pre n post, valid_name n ->
+  sub_tokens (pre ++ 36 :: 123 :: 33 :: n ++ 125 :: post) = sub_tokens pre ++ TBang n :: sub_tokens post.
+Proof. exact sub_finds_bang. Qed.
+Print Assumptions C01_sub_finds_bang.
+
+(* cutting anywhere else: fine as soon as [pre] leaves no placeholder open
+   ([closed]: no suffix of [pre] is "$", "${" + name characters or "${!" + name characters) *)
+Theorem C01_sub_tokens_app : forall pre x, closed pre -> sub_tokens (pre ++ x) = sub_tokens pre ++ sub_tokens x.
+Proof. exact sub_tokens_app_closed. Qed.
+Print Assumptions C01_sub_tokens_app.
+
+(* Take any token [t] of the tokenisation, [before] = the source text of the tokens before it, [here] = the text
+   from [t] on.  A placeholder token carries a genuine name (its source "${" n "}" / "${!" n "}" is a regex match:
+   nothing is invented); a literal-character token stands where the regex does NOT match (nothing is missed). *)
+Theorem C01_sub_misses_nothing : forall text ts1 t ts2, sub_tokens text = ts1 ++ t :: ts2 ->
+  let before := concat (map tok_src ts1) in
+  let here := tok_src t ++ concat (map tok_src ts2) in
+  text = before ++ here /\
+  match t with
+  | TVar n => valid_name n
+  | TBang n => valid_name n
+  | TText c => ~ starts_placeholder here
+  end.
+Proof. exact sub_misses_nothing. Qed.
+Print Assumptions C01_sub_misses_nothing.
+
+(* "everything is literal text" is the answer exactly when the regex matches at no position of the text ... *)
+Theorem C01_sub_all_text_iff : forall text,
+  sub_tokens text = map TText text <-> (forall a u, text = a ++ u -> ~ starts_placeholder u).
+Proof. exact sub_all_text_iff. Qed.
+Print Assumptions C01_sub_all_text_iff.
+
+(* ... so the tokeniser that finds nothing, although a partition of every text, is refuted by "${A}" *)
+Theorem C01_sub_all_text_refuted :
+  (forall text, concat (map tok_src (map TText text)) = text)
+  /\ ~ Scan [36;123;65;125] (map TText [36;123;65;125])
+  /\ Scan [36;123;65;125] [TVar [65]].
+Proof. exact sub_all_text_refuted. Qed.
+Print Assumptions C01_sub_all_text_refuted.
+
+(* end to end.  pre "${" n "}" post  -->  (pre substituted) (value of n, once) (post substituted);
+                pre "${!" n "}" post -->  (pre substituted) "${" n "}" (post substituted);  no "$": unchanged *)
+Theorem C01_sub_placeholder_end_to_end : forall e custom pre n post a b c, valid_name n ->
+  do_sub e pre custom = Ok (VStr a) -> render_var e custom n = Ok b -> do_sub e post custom = Ok (VStr c) ->
+  do_sub e (pre ++ 36 :: 123 :: n ++ 125 :: post) custom = Ok (VStr (a ++ b ++ c)).
+Proof. exact do_sub_placeholder. Qed.
+Print Assumptions C01_sub_placeholder_end_to_end.
+Theorem C01_sub_bang_end_to_end : forall e custom pre n post a c, valid_name n ->
+  do_sub e pre custom = Ok (VStr a) -> do_sub e post custom = Ok (VStr c) ->
+  do_sub e (pre ++ 36 :: 123 :: 33 :: n ++ 125 :: post) custom = Ok (VStr (a ++ (36 :: 123 :: n ++ [125]) ++ c)).
+Proof. exact do_sub_bang. Qed.
+Print Assumptions C01_sub_bang_end_to_end.
+Theorem C01_sub_no_dollar : forall e text custom, ~ In 36 text -> do_sub e text custom = Ok (VStr text).
+Proof. exact do_sub_no_dollar. Qed.
+Print Assumptions C01_sub_no_dollar.
 
 (* ... and the result is the concatenation of each token rendered exactly once, left to right *)
 Theorem C01_sub_once : forall e text custom r,
@@ -98,4 +183,18 @@ Example C01_ex_select_negative : resolve e0 (VDict [(K_Select, VList [VInt (-1);
 Proof. vm_compute. reflexivity. Qed.
 Example C01_ex_nested : resolve e0 (VDict [(K_Join, VList [VStr [45]; VList [VDict [(K_Ref, VStr [65])]; VDict [(K_Base64, VStr [97])]; VBool true]])])
   = Ok (VStr [49;45;89;81;61;61;45;116;114;117;101]).
+Proof. vm_compute. reflexivity. Qed.
+(* the tokeniser on the same text: x ${A} y ${!A} z;  "${A.B}", "${ A }", "$A", "${}" and "${!}" are literal text *)
+Example C01_ex_tokens : sub_tokens [120;36;123;65;125;121;36;123;33;65;125;122]
+  = [TText 120; TVar [65]; TText 121; TBang [65]; TText 122].
+Proof. vm_compute. reflexivity. Qed.
+Example C01_ex_not_placeholders :
+  sub_tokens [36;123;65;46;66;125] = map TText [36;123;65;46;66;125]
+  /\ sub_tokens [36;123;32;65;32;125] = map TText [36;123;32;65;32;125]
+  /\ sub_tokens [36;65] = map TText [36;65]
+  /\ sub_tokens [36;123;125] = map TText [36;123;125]
+  /\ sub_tokens [36;123;33;125] = map TText [36;123;33;125].
+Proof. vm_compute. repeat split; reflexivity. Qed.
+(* "${${A}" : the open "${" is literal, the placeholder after it is still found *)
+Example C01_ex_open_then_placeholder : sub_tokens [36;123;36;123;65;125] = [TText 36; TText 123; TVar [65]].
 Proof. vm_compute. reflexivity. Qed.
